@@ -77,6 +77,12 @@ func (r *Run) Violate(prop, sig, format string, a ...any) {
 	if r.vseen[key] || (r.FirstOnly && len(r.Violations) > 0) {
 		return
 	}
+	if r.Sim.Exhausted && !strings.HasPrefix(sig, "panic:") && !strings.HasPrefix(sig, "fatal-exit:") {
+		// the run hit its step budget: whatever has not happened yet may still
+		// happen; no verdict from this run (counted as inconclusive)
+		r.Inconclusive++
+		return
+	}
 	r.vseen[key] = true
 	msg := fmt.Sprintf(format, a...)
 	r.Violations = append(r.Violations, Violation{Prop: prop, Sig: sig, Msg: msg})
@@ -131,6 +137,8 @@ func NewRun(prop string, seed uint64, tier string, ch *vsim.Choices) *Run {
 	s := vsim.New(ch)
 	vsim.S = s
 	vsim.ResetChanTable()
+	vsim.ResetWaitGroups()
+	vsim.ResetPools()
 	vsim.RandCfg = vsim.RandConfig{}
 	w := vsimenv.NewWorld(s)
 	w.AgentIP = AgentIP
